@@ -102,6 +102,9 @@ func (s *sys) add(key, f string, a ...interface{}) {
 func newSys(c cfg) *sys {
 	s := &sys{c: c, w: world.New(world.Conf{"rtsp.enable": true, "_hook": true}), ended: map[int]bool{}}
 	s.w.EnableRelay(nil)
+	// an RTMP origin sends the stream's audio sequence header in the same segment as its play status: a pull
+	// that is refused when it tries to attach has then already received media
+	s.w.OriginEager = []ref.Msg{{Csid: 4, Type: 8, Msid: 1, Ts: 0, Payload: ashPayload}}
 	s.w.PsAuto = true
 	s.setupBystander()
 	for _, ev := range c.Prefix {
